@@ -30,7 +30,10 @@ RULE = (
     "+ a stratified sample, thorough: every k), E4 SIGKILL after a random log-uniform delay while large datasets are "
     "written. Oracle on the crashed directory: committed files byte-identical; committed files alone open and show the "
     "last committed state; complete set either fails to open, or opens with the newest container marked uncommitted, or "
-    "opens committed showing exactly the state at commit_patch. non-trivial = crash inside the cycle (not before/after); "
+    "opens committed showing exactly the state at commit_patch; every fourth record is crashed in the cycle that CREATES it "
+    "(patch 0, the base container, nothing committed before). Recovery stage: on crashed sets that open, an ordinary "
+    "session (open r+ / a, write, close) is run; if it succeeds, a read-only open must show what it saw before close, "
+    "committed. non-trivial = crash inside the cycle (not before/after); "
     "distinct = (record, engine, crash point)."
 )
 ANCHORS = ["src/metador_core/ih5/record.py", "src/metador_core/ih5/manifest.py"]
@@ -76,11 +79,12 @@ def fp_disable():
 # ---------------------------------------------------------------- the patch cycle (run in dry mode and in children)
 
 
-def cycle(d, clsname, seed, big=0, snap=None, ready=None, want_state=False):
-    """One patch cycle. snap(tag, rec) is called after every API call in the dry run."""
+def cycle(d, clsname, seed, big=0, snap=None, ready=None, want_state=False, create=False):
+    """One patch cycle (create=True: the cycle that creates the record, i.e. writes patch 0, the base container).
+    snap(tag, rec) is called after every API call in the dry run."""
     cls = RE.CLS[clsname]
     _fp["on"] = True
-    rec = cls(Path(d) / "rec", "r+")
+    rec = cls(Path(d) / "rec", "w" if create else "r+")
     if snap:
         snap("create_patch", rec)
     if ready:
@@ -143,14 +147,17 @@ def oracle(cls, d, committed, ledger, view_commit, view_new, state_commit=None, 
             return None, ("committed-file-lost", f"{name} vanished")
         if fsmon.file_sig(p)[:2] != sig[:2]:
             return None, ("committed-file-changed", f"{name} differs from its committed bytes")
-    r, err = RE.try_open(cls, [d / n for n in committed], "r")
-    if r is None:
-        return None, ("committed-set-unopenable", f"committed containers alone do not open: {err}")
-    try:
-        if E.dump_walk(r) != view_commit:
-            return None, ("committed-set-state", "committed containers alone do not show the last committed state")
-    finally:
-        r.close()
+    if committed:
+        r, err = RE.try_open(cls, [d / n for n in committed], "r")
+        if r is None:
+            return None, ("committed-set-unopenable", f"committed containers alone do not open: {err}")
+        try:
+            if E.dump_walk(r) != view_commit:
+                return None, ("committed-set-state", "committed containers alone do not show the last committed state")
+        finally:
+            r.close()
+    elif not any(p.name.endswith(".ih5") for p in d.iterdir()):
+        return "nothing-created", None  # killed before the first container existed
     r, err = RE.try_open(cls, d / "rec", "r")
     if r is None:
         # a file set that does not open read-only must not open for patching either (on a scratch copy: r+/a may create files)
@@ -198,6 +205,40 @@ def oracle(cls, d, committed, ledger, view_commit, view_new, state_commit=None, 
         gc.collect()
 
 
+def recovery(cls, d, mode):
+    """An ordinary patching session on the crashed file set (no crash in it): if opening for writing, writing and closing
+    all succeed, what it committed must be there afterwards. -> (outcome, None) | (None, (kind, detail))"""
+    d = Path(d)
+    r, err = RE.try_open(cls, d / "rec", mode)
+    if r is None:
+        return "refused-open", None
+    try:
+        v0 = E.dump_walk(r)
+        r["recovered-by-session"] = 4711
+        r.attrs["recovered"] = mode
+        want = E.dump_walk(r)
+        r.close()
+    except Exception as e:
+        RE.safe_close(r, commit=False)
+        gc.collect()
+        return "session-raised", None
+    r2, err = RE.try_open(cls, d / "rec", "r")
+    if r2 is None:
+        return None, ("recovery-session-lost", f"after the crash the set opened in mode '{mode}', a dataset was written and close() returned, "
+                                              f"but the file set {sorted(p.name for p in d.iterdir())} no longer opens: {type(err).__name__}: {str(err)[:100]}")
+    try:
+        got = E.dump_walk(r2)
+        if got != want:
+            df = E.diff_dumps(got, want)
+            return None, ("recovery-session-state", f"after a recovery session (mode '{mode}') the record shows another state than the session saw before close: {df[2] if df else ''}")
+        if not RE.is_committed_on_disk(Path(r2.ih5_files[-1])):
+            return None, ("recovery-session-uncommitted", "close() of the recovery session returned but the newest container is not committed")
+    finally:
+        RE.safe_close(r2, commit=False)
+        gc.collect()
+    return "recovered", None
+
+
 # ---------------------------------------------------------------- one record, all engines
 
 
@@ -207,11 +248,16 @@ def run_record(acc, base, clsname, seed, tier, engines):
     base = Path(base)
     pre = base / "pre"
     pre.mkdir()
-    rec, _, commits = RE.build_record(rng, pre, "rec", cls, rng.randint(1, 3), ops_per=(1, 5), exts_prob=0.3)
-    committed = [Path(p).name for p in rec.ih5_files]
-    view_commit = E.dump_walk(rec)
-    state_commit = rec_state(rec, pre)
-    rec.close()
+    create = seed % 4 == 3  # every fourth record: the crashed cycle is the one that CREATES the record (patch 0, the base container)
+    if create:
+        committed, view_commit, state_commit = [], None, None
+    else:
+        rec, _, commits = RE.build_record(rng, pre, "rec", cls, rng.randint(1, 3), ops_per=(1, 5), exts_prob=0.3)
+        committed = [Path(p).name for p in rec.ih5_files]
+        view_commit = E.dump_walk(rec)
+        state_commit = rec_state(rec, pre)
+        rec.close()
+    acc.count("records.crash_in_base_creation" if create else "records.crash_in_patch")
     ledger = {n: s for n, s in fsmon.dir_state(pre).items()}
     cseed = rng.randrange(1 << 30)
     rid = f"{clsname}:{seed}"
@@ -224,6 +270,7 @@ def run_record(acc, base, clsname, seed, tier, engines):
         return w
 
     states = {}
+    jctr = [0]
 
     def judge(engine, point, w, view_new, nontrivial=True):
         out, bad = oracle(cls, w, committed, ledger, view_commit, view_new, state_commit, states.get(id(view_new)))
@@ -233,6 +280,15 @@ def run_record(acc, base, clsname, seed, tier, engines):
                           {"cls": clsname, "seed": seed, "engine": engine, "point": point})
         else:
             acc.count(f"outcome.{engine}.{out}")
+            jctr[0] += 1
+            if out in ("opens-uncommitted", "opens-committed-new", "opens-committed-old") and (out == "opens-uncommitted" or jctr[0] % 5 == 0):
+                mode = ("r+", "a")[jctr[0] % 2]
+                rout, rbad = recovery(cls, w, mode)
+                if rbad:
+                    acc.violation(f"{rbad[0]}:{engine}:{clsname}", f"{rbad[1]} [engine {engine}, crash point {point}, outcome before recovery {out}, record {rid}{', crash while creating the base container' if create else ''}]",
+                                  {"cls": clsname, "seed": seed, "engine": engine, "point": point})
+                else:
+                    acc.count(f"recovery.{out}.{rout}")
         shutil.rmtree(w, ignore_errors=True)
 
     # ---- dry run: expected new view, E1 snapshots, captured user-block write, LINE count
@@ -271,7 +327,7 @@ def run_record(acc, base, clsname, seed, tier, engines):
     _fp.update(n=0, kill_at=None, names=[])
     fp_enable()
     try:
-        view_new, st_new = cycle(w, clsname, cseed, snap=snap, want_state=True)
+        view_new, st_new = cycle(w, clsname, cseed, snap=snap, want_state=True, create=create)
         states[id(view_new)] = st_new
     finally:
         fp_disable()
@@ -336,7 +392,7 @@ def run_record(acc, base, clsname, seed, tier, engines):
                     os.chdir(wk)
                     _fp.update(n=0, kill_at=k, names=None, on=False)
                     fp_enable()
-                    cycle(wk, clsname, cseed)
+                    cycle(wk, clsname, cseed, create=create)
                 finally:
                     os._exit(0)
             _, status = os.waitpid(pid, 0)
@@ -349,7 +405,7 @@ def run_record(acc, base, clsname, seed, tier, engines):
     # ---- E4: random-instant SIGKILL while writing large datasets
     if "E4" in engines:
         w = fresh("dryb")
-        view_big, st_big = cycle(w, clsname, cseed, big=2, want_state=True)
+        view_big, st_big = cycle(w, clsname, cseed, big=2, want_state=True, create=create)
         states[id(view_big)] = st_big
         shutil.rmtree(w, ignore_errors=True)
         n4 = 10 if tier == "quick" else 150
@@ -362,7 +418,7 @@ def run_record(acc, base, clsname, seed, tier, engines):
                 try:
                     os.close(rd)
                     os.chdir(wk)
-                    cycle(wk, clsname, cseed, big=2, ready=lambda: os.write(wr, b"x"))
+                    cycle(wk, clsname, cseed, big=2, ready=lambda: os.write(wr, b"x"), create=create)
                 finally:
                     os._exit(0)
             os.close(wr)
@@ -412,6 +468,10 @@ def inconclusive(cov):
         r.append("no kill inside commit_patch")
     if not c.get("E4.killed"):
         r.append("no random-instant kill hit a running writer")
+    if not c.get("records.crash_in_base_creation"):
+        r.append("no record crashed while its base container was created")
+    if not c.get("recovery.opens-uncommitted.recovered"):
+        r.append("no recovery session on an uncommitted crashed set")
     return r
 
 
